@@ -134,8 +134,17 @@ def cases(rng, tier):
                 c["cond_raises"] = rng.random() < 0.2
                 if op == "do_while":
                     c["dispose"] = None
-        if c["cut"] is None and rng.random() < 0.1:
+        if c["cut"] is None and rng.random() < 0.1 and not any(sp.get("mode") == "sync" for sp in c.get("srcs", [])):
             c["cut"] = rng.choice([1, 2, 3])
+        # sources that notify - in particular FAIL or complete - synchronously inside subscribe, under the queued hand-over too
+        # (catch(handler): the handler's sequence is installed from inside the source's subscribe call)
+        if op in LIST_OPS and not c.get("inline") and c.get("srcs") and rng.random() < (0.45 if op == "catch_handler" else 0.15):
+            base = 1 if op == "start_with" else 0
+            js = [0] if op == "catch_handler" else [j for j in range(len(c["srcs"])) if rng.random() < 0.6]
+            for j in js:
+                p_c, p_e = {"concat": (0.8, 0.15), "catch": (0.15, 0.8), "oern": (0.5, 0.5)}[kind]
+                c["srcs"][j] = {"mode": "sync", "msgs": cc.gen_timeline(rng, base + j, maxn=2, span=5, p_complete=p_c, p_error=p_e)}
+            c["cut"] = None
         # oracle-only: a second subscriber on the same observable instance must see what a fresh instance gives it
         if op in ("concat", "ops_concat", "catch", "ops_catch_obs", "oern", "ops_oern", "catch_handler") and not c.get("inline") and rng.random() < 0.12:
             c["second"] = cc.gen_second(rng)
